@@ -77,6 +77,10 @@ impl Pass0Context {
     }
 }
 
+/// Deepest nesting of macro calls inside macro bodies that is expanded; a macro that calls
+/// itself (directly or through others) is reported instead of overflowing the stack.
+pub const MAX_MACRO_DEPTH: usize = 64;
+
 pub fn build_pass_0(
     parsed: ParseResult,
     common_context: &CommonContext,
@@ -101,7 +105,7 @@ pub fn build_pass_0(
                     t: segment.t,
                     items: vec![],
                 });
-                pass0_internal(segment.clone(), &context, &parsed.macroses)?;
+                pass0_internal(segment.clone(), &context, &parsed.macroses, 0)?;
             }
         }
     }
@@ -113,11 +117,19 @@ fn pass0_internal(
     segment: Segment,
     context: &Pass0Context,
     macroses: &HashMap<String, Vec<(CodePoint, String)>>,
+    depth: usize,
 ) -> Result<(), Error> {
     for (line, item) in segment.items.iter() {
         match item {
             Item::Instruction(name, ops) => match name {
                 Operation::Custom(macro_name) => {
+                    if depth >= MAX_MACRO_DEPTH {
+                        bail!(
+                            "macro {} is recursive or nested too deeply, {}",
+                            macro_name,
+                            line
+                        );
+                    }
                     let segments = macro_expand(line, macro_name, ops, context, macroses)?;
                     if !segments.is_empty() {
                         let current_segment = context.last_segment().unwrap().borrow().clone();
@@ -130,7 +142,7 @@ fn pass0_internal(
                                 items: vec![],
                             });
                         }
-                        pass0_internal(segments[0].clone(), context, macroses)?;
+                        pass0_internal(segments[0].clone(), context, macroses, depth + 1)?;
                         for segment in segments.iter().skip(1) {
                             if segment.t == SegmentType::Code {
                                 context.add_segment(Segment {
@@ -138,7 +150,7 @@ fn pass0_internal(
                                     t: segment.t,
                                     items: vec![],
                                 });
-                                pass0_internal(segment.clone(), context, macroses)?;
+                                pass0_internal(segment.clone(), context, macroses, depth + 1)?;
                             } else {
                                 context.add_segment(segment.clone());
                             }
